@@ -6,7 +6,11 @@
     "literal" = … and a file of that literal name exists; trace entry of the probe: "stat <pid>/map/<i>")
    {"op":"run","method":m,"attrs":[..],"plan":{"switch":[[k,"zombie"|"gone"]],"deny":[[k,"EACCES"|"EPERM"]]},
     "impl":{"kind":"ok","shape":..}|{"kind":"exc","exc":cls,"pid":p|null}}
-     → {"model":outcome,"trace":[..],"spec":{"ok":b,"ok_any":b,"gone_nsp":b|null,"cause":b|null}}
+     → {"model":outcome,"trace":[..],"spec":{"ok":b,"ok_any":b,"value":b|null,"gone_nsp":b|null,"cause":b|null}}
+   `ok` = Spec.OKV (value clause included: the returned object's shape, `impl.shape`, must be the documented one of the
+   call; `impl.vals` = [[name, shape],..] the values an as_dict/process_iter result stores); `value` = that clause alone.
+   Shapes: "int"|"float"|"str"|"estr"|"none"|"dict"|["bool",b]|["tuple",n]|["list",n]|["proc",p]|["procs",[..]]|
+   ["asdict",n,ad,bad]|["iter",[[pid,n,ad,bad],..]]|["exc",cls,pid|null] (an exception INSTANCE returned)|["unknown",type]
    ("cause_k1":n on a run line = the number of accesses the implementation made; then `cause` = Spec.Cause over
     accesses 0..n-1 decided on the implementation's outcome. method "as_dict_all" = as_dict() with `attrs` = all names)
    {"op":"hist","methods":[m,..],"plan":{..},"gone_from":k0|null,"impls":[outcome,..]}   (several calls on ONE object)
@@ -108,6 +112,8 @@ def accStr : OsAcc → String
   | .native .ioprioGet q => s!"native ioprio {q}"
   | .native .prlimit q => s!"native prlimit {q}"
 
+def jStrs (l : List String) : Json := jList Json.str l
+
 def excName : PyExc → String × Option Nat
   | .fnf => ("FileNotFoundError", none) | .ple => ("ProcessLookupError", none) | .perm => ("PermissionError", none)
   | .nsp p => ("NoSuchProcess", some p) | .zombie p => ("ZombieProcess", some p) | .ad p => ("AccessDenied", some p)
@@ -115,7 +121,6 @@ def excName : PyExc → String × Option Nat
   | .typeError => ("TypeError", none) | .runtimeError => ("RuntimeError", none)
   | .notImplemented => ("NotImplementedError", none)
 
-def jStrs (l : List String) : Json := jList Json.str l
 
 def jVal : Val → Json
   | .none => "none" | .int => "int" | .float => "float" | .str => "str" | .estr => "estr" | .dict => "dict"
@@ -124,8 +129,10 @@ def jVal : Val → Json
   | .list n => Json.arr #["list", jNat n]
   | .proc p => Json.arr #["proc", jNat p]
   | .procs l => Json.arr #["procs", jList jNat l]
-  | .asdict n ad => Json.arr #["asdict", jNat n, jStrs ad]
-  | .iter l => Json.arr #["iter", jList (fun x => Json.arr #[jNat x.1, jNat x.2.1, jStrs x.2.2]) l]
+  | .asdict n ad bad => Json.arr #["asdict", jNat n, jStrs ad, jStrs bad]
+  | .iter l => Json.arr #["iter", jList (fun x => Json.arr #[jNat x.1, jNat x.2.1, jStrs x.2.2.1, jStrs x.2.2.2]) l]
+  | .exc e => let (n, p) := excName e; Json.arr #["exc", Json.str n, jOpt jNat p]
+  | .other => Json.arr #["unknown"]
 
 def jOutcome : Except PyExc Val → Json
   | .ok v => jObj [("kind", "ok"), ("shape", jVal v)]
@@ -159,17 +166,82 @@ def sortInsert (x : String) : List String → List String
 
 /-- canonical order of the ad_value names (the harness sorts them too) -/
 def canonVal : Val → Val
-  | .asdict n ad => .asdict n (ad.foldr sortInsert [])
-  | .iter l => .iter (l.map fun x => (x.1, x.2.1, x.2.2.foldr sortInsert []))
+  | .asdict n ad bad => .asdict n (ad.foldr sortInsert []) (bad.foldr sortInsert [])
+  | .iter l => .iter (l.map fun x => (x.1, x.2.1, x.2.2.1.foldr sortInsert [], x.2.2.2.foldr sortInsert []))
   | v => v
+
+/-- an exception object by class name (`none`: a class the model has no constructor for) -/
+def excOf (cls : String) (pid : Option Nat) : Option PyExc :=
+  let withPid (f : Nat → PyExc) : Option PyExc := pid.map f
+  if cls == "NoSuchProcess" then withPid .nsp
+  else if cls == "ZombieProcess" then withPid .zombie
+  else if cls == "AccessDenied" then withPid .ad
+  else if cls == "FileNotFoundError" then some .fnf
+  else if cls == "ProcessLookupError" then some .ple
+  else if cls == "PermissionError" then some .perm
+  else if cls == "IndexError" then some .indexError
+  else if cls == "ValueError" then some .valueError
+  else if cls == "KeyError" then some .keyError
+  else if cls == "TypeError" then some .typeError
+  else none
+
+/-- the shape of a RETURNED object as the harness reports it (the inverse of `jVal`); an exception instance of a class
+    the model does not know, and any object of an undocumented type, is `Val.other` — never well-formed -/
+partial def parseShape (j : Json) : R Val := do
+  match j with
+  | Json.str "int" => return .int
+  | Json.str "float" => return .float
+  | Json.str "str" => return .str
+  | Json.str "estr" => return .estr
+  | Json.str "none" => return .none
+  | Json.str "dict" => return .dict
+  | Json.arr #[Json.str "bool", Json.bool b] => return .bool b
+  | Json.arr #[Json.str "tuple", n] => return .tuple (← asNat n)
+  | Json.arr #[Json.str "list", n] => return .list (← asNat n)
+  | Json.arr #[Json.str "proc", p] => return .proc (← asNat p)
+  | Json.arr #[Json.str "procs", l] => return .procs (← asList asNat l)
+  | Json.arr #[Json.str "asdict", n, ad, bad] => return .asdict (← asNat n) (← asList asStr ad) (← asList asStr bad)
+  | Json.arr #[Json.str "iter", l] =>
+    let items ← asList (fun x => match x with
+      | Json.arr #[p, n, ad, bad] => do pure ((← asNat p), (← asNat n), (← asList asStr ad), (← asList asStr bad))
+      | _ => .error s!"bad iter item {x.compress}") l
+    return .iter items
+  | Json.arr #[Json.str "exc", Json.str cls, pid] =>
+    let p ← (match pid with | Json.null => pure none | v => do pure (some (← asNat v)))
+    match excOf cls p with
+    | some e => return .exc e
+    | none => return .other
+  | Json.arr #[Json.str "unknown", _] => return .other
+  | Json.arr #[Json.str "unknown"] => return .other
+  | _ => .error s!"bad value shape {j.compress}"
+
+/-- the implementation's outcome WITH the returned object's shape (what `Spec.OKV` judges) -/
+def parseImplFull (j : Json) : R (Option (Except PyExc Val)) := do
+  let kind ← strF j "kind"
+  if kind == "ok" then
+    let v ← field j "shape" >>= parseShape
+    return some (.ok v)
+  let cls ← strF j "exc"
+  let pid ← optF asNat j "pid"
+  return (excOf cls pid).map .error
+
+/-- the values an as_dict / process_iter result stores under each name (ad_value left out): each must be the documented
+    result of that name -/
+def parseVals (j : Json) : R (List (String × Val)) :=
+  match j.getObjVal? "vals" with
+  | .ok v => asList (parsePair asStr parseShape) v
+  | .error _ => pure []
+
+/-- the name `Spec.WellFormed` knows the call by -/
+def specName (m : String) : String := m
 
 def program (w : World) (m : String) (attrs : List String) : Option (M Val) :=
   let o := w.obj
   if m == "as_dict" then
-    some (do let (n, ad) ← Fe.asDict cfg o attrs; pure (.asdict n ad))
+    some (do let (n, ad, bad) ← Fe.asDict cfg o attrs; pure (.asdict n ad bad))
   else if m == "as_dict_all" then
     -- as_dict() / as_dict(attrs=None): `attrs` = the names of `_as_dict_attrnames` in the set's iteration order
-    some (do let (n, ad) ← Fe.asDictAll cfg o attrs; pure (.asdict n ad))
+    some (do let (n, ad, bad) ← Fe.asDictAll cfg o attrs; pure (.asdict n ad bad))
   else if m == "process_iter" then some (Fe.processIter cfg attrs)
   -- memory_maps(grouped=False): the same platform call, every item wrapped instead of grouped (all names are distinct)
   else if m == "memory_maps_flat" then Fe.getter cfg o "memory_maps"
@@ -189,7 +261,7 @@ def handleHist (w : World) (j : Json) : R Json := do
   let ms ← listF asStr j "methods"
   let (ws, deny) ← field j "plan" >>= parsePlan
   let goneFrom ← optF asNat j "gone_from"
-  let impls ← listF parseImplVal j "impls"
+  let impls ← listF parseImplFull j "impls"
   let calls ← ms.mapM (fun m => match Fe.methodH cfg w.obj m with
                                  | some h => pure h
                                  | none => .error s!"{m} is not a history call")
@@ -202,9 +274,9 @@ def handleHist (w : World) (j : Json) : R Json := do
       | (.ok (out, f'), s') => let (l, sf) := go rest f' s'; ((s.k, out) :: l, sf)
       | (.error e, s') => let (l, sf) := go rest f s'; ((s.k, .error e) :: l, sf)
   let (outs, st) := go calls {} {}
-  let specOk : List Json := impls.map fun i => match i with
+  let specOk : List Json := (ms.zip impls).map fun (m, i) => match i with
     | none => Json.bool false
-    | some o => Json.bool (decide (Spec.OK w.target o))
+    | some o => Json.bool (decide (Spec.OKV w.target (specName m) o))
   let ans : List Json := (ms.zip (outs.zip impls)).map fun (m, (start, _), impl) =>
     match goneFrom with
     | some k0 =>
@@ -237,7 +309,10 @@ def handle (w : Option World) (j : Json) : R (Option World × Json) := do
                  | .ok v => asList asStr v
                  | .error _ => pure [])
     let (ws, deny) ← field j "plan" >>= parsePlan
-    let impl ← field j "impl" >>= parseImpl
+    let implJ ← field j "impl"
+    let impl ← parseImpl implJ
+    let implV ← parseImplFull implJ
+    let vals ← parseVals implJ
     -- "cause_k1": number of OS accesses the IMPLEMENTATION performed (given only for the property's plan shapes)
     let causeK1 ← optF asNat j "cause_k1"
     match program w m attrs with
@@ -246,9 +321,15 @@ def handle (w : Option World) (j : Json) : R (Option World × Json) := do
       let c : Ctx := { w := w, ws := ws, deny := deny }
       let (out, st) := run prog c
       let goneStart := decide (ws 0 = .gone) && (deny 0).isNone
-      let specOk : Bool := match impl with
+      -- Spec.OKV: psutil error carrying the pid, or a value of the DOCUMENTED shape of this call — and every value an
+      -- as_dict / process_iter result stores is the documented result of its name
+      let valsOk : Bool := vals.all (fun x => Spec.WellFormedB x.1 x.2)
+      let specOk : Bool := match implV with
         | none => false
-        | some o => decide (Spec.OK w.target o)
+        | some o => decide (Spec.OKV w.target (specName m) o) && valsOk
+      let specValue : Json := match implV with
+        | some (.ok v) => Json.bool (Spec.WellFormedB (specName m) v && valsOk)
+        | _ => Json.null
       let specAny : Bool := match impl with
         | none => false
         | some o => decide (Spec.OKany o)
@@ -265,7 +346,7 @@ def handle (w : Option World) (j : Json) : R (Option World × Json) := do
         | none, _ => Json.null
       return (some w, jObj [("model", jOutcome (out.map canonVal)),
                             ("trace", jList Json.str (st.trace.reverse.map accStr)),
-                            ("spec", jObj [("ok", Json.bool specOk), ("ok_any", Json.bool specAny), ("gone_nsp", goneNsp),
+                            ("spec", jObj [("ok", Json.bool specOk), ("ok_any", Json.bool specAny), ("value", specValue), ("gone_nsp", goneNsp),
                                            ("cause", cause)])])
 
 def main : IO Unit := Proto.run (none : Option World) (total handle)
